@@ -25,6 +25,17 @@ enum MemberKeyInfo {
 impl Compiler {
     /// Compile an expression, placing result in the specified destination register
     pub fn compile_expression(&mut self, expr: &Expression, dst: Register) -> Result<(), JsError> {
+        // An early error without a position of its own (invalid assignment target, undeclared
+        // private name, ...) is located at the innermost expression being compiled
+        self.compile_expression_unlocated(expr, dst)
+            .map_err(|e| e.located_at(expr.span()))
+    }
+
+    fn compile_expression_unlocated(
+        &mut self,
+        expr: &Expression,
+        dst: Register,
+    ) -> Result<(), JsError> {
         self.builder.set_span(expr.span());
 
         match expr {
